@@ -289,16 +289,6 @@ func (e *vsConnEnv) pollerBodyLT() {
 	}
 }
 
-func vsChanLen(ch interface{}) int {
-	switch c := ch.(type) {
-	case chan error:
-		return len(c)
-	case <-chan time.Time:
-		return len(c)
-	}
-	return 0
-}
-
 func vsTimerTick(t *time.Timer) int {
 	if t == nil {
 		return 0
